@@ -54,6 +54,7 @@ def c01_cases(tier, seed):
     cs += gens.g_mutations(seed, 3000 if q else 30000)
     cs += gens.g_ent_cycles(12 if q else 32) + gens.g_ent_fanout([1, 2, 3, 16, 255, 256], [1, 2, 9, 10, 11]) + gens.g_ent_random(seed, 500 if q else 5000)
     cs += gens.g_cst(seed, 400 if q else 4000, flags="", renderings=2, hoist=True)
+    cs += gens.g_nonchar() + gens.g_long(flags="")
     # option sweep on a sample
     rnd = random.Random(seed)
     extra = []
@@ -235,7 +236,10 @@ def illformed_catalogue():
         ("<!DOCTYPE r [<!ENTITY p '&#60;'>]><r a='&p;'/>", "'<' in attribute value through a reference in an entity"),
         ("<r><!-- a -- b --></r>", "'--' in comment"), ("<r><!-- a ---></r>", "comment ending in '-'"),
         ("<!-- -- --><r/>", "'--' in prolog comment"),
-        ("<r>a]]>b</r>", "']]>' in text"),
+        ("<r>a]]>b</r>", "']]>' in text"), ("<r>a>b]]>c</r>", "']]>' in text after a '>'"), ("<r>>]]></r>", "']]>' in text after a '>'"),
+        ("<r>1 > 0 and a[b[0]]> 1</r>", "']]>' in text after a '>'"),
+        ("<!DOCTYPE r [<!ENTITY c 'x'><!ENTITY a '&c;<i/></b>'>]><r><b>&a;</r>", "end tag in an entity after a nested reference"),
+        ("<!DOCTYPE r [<!ENTITY c '<j/>'><!ENTITY a '<i>&c;</i></b>'>]><r><b>&a;</r>", "end tag in an entity after a nested reference"),
         ("<r>\x01</r>", "non-Char in text"), ("<r a='\x02'/>", "non-Char in attribute"),
         ("<r><!--\x03--></r>", "non-Char in comment"), ("<r><?p \x04?></r>", "non-Char in PI"),
         ("<r><![CDATA[\x05]]></r>", "non-Char in CDATA"), ("<r>￾</r>", "U+FFFE in text"), ("<r>￿</r>", "U+FFFF in text"),
@@ -263,13 +267,26 @@ def c08_cases(tier, seed):
     rnd = random.Random(seed)
     # catalogue edits embedded at every position of generated well-formed documents
     docs = gens.g_cst(seed, 60 if q else 400, flags="", renderings=1, doctype_free=True, non_ascii=False)
-    inserts = [("</zz>", "stray end tag"), ("<zz>", "unclosed element"), ("&undefined;", "undefined entity"), ("&#;", "malformed reference"),
+    inserts = [(">]]>", "']]>' in text after a '>'"), ("</zz>", "stray end tag"), ("<zz>", "unclosed element"), ("&undefined;", "undefined entity"), ("&#;", "malformed reference"),
                ("\x01", "non-Char"), ("]]>", "']]>' in text"), ("<!-- -- -->", "'--' in comment"), ("<1/>", "bad name"),
                ("<?xml version='1.0'?>", "misplaced declaration"), ("<a b='<'/>", "'<' in attribute value"), ("<a b='1' b='2'/>", "duplicate attribute"),
                ("<u:a/>", "undeclared prefix")]
-    for c in docs:
+    # the end of the root element is taken from the implementation's own range of the root
+    # element (phase 1), so that truncation cuts are really "before the root end tag"
+    docs = [c for c in docs if c.meta.get("expect_content") is not None]
+    harness = os.path.join(rxlib.HARNESS, "target", "release", "rxharness")
+    pre = rxlib.run_sharded(harness, ["dump"], [Case(c.data, "np", True) for c in docs], os.path.join(BUILD, "work-C08"), "pre")
+    ends = {}
+    for i, c in enumerate(docs):
+        rows = [l.split(" ") for l in pre[i] if l.startswith("N ")]
+        root_el = [r[1] for r in rows if r[2] == "E" and r[3] == "0"]
+        for l in pre[i]:
+            f = l.split(" ")
+            if f[0] == "P" and root_el and f[1] == root_el[0]:
+                ends[i] = len(c.data[:int(f[3])].decode("utf-8"))
+    for di, c in enumerate(docs):
         s = c.data.decode()
-        if c.meta.get("expect_content") is None:
+        if di not in ends:
             continue
         cs.append(Case(s, "", True, meta={"gen": "cst-wellformed", "wellformed": "generated document"}))
         # content positions: directly after a '>' that ends a start tag / before '</'
@@ -281,11 +298,12 @@ def c08_cases(tier, seed):
                     continue
                 cs.append(Case(s[:sp] + ins + s[sp:], "", True, meta={"gen": "cst-illformed", "illformed": why}))
         # truncation before the end of the root element
-        end = root_end(s)
+        end = ends[di]
         for cut in range(1, end):
             cs.append(Case(s[:cut], "", True, meta={"gen": "truncation", "illformed": "truncated at %d of %d" % (cut, end)}))
     cs += gens.g_meta(3 if q else 4, embed=True)
     cs += gens.g_tokens(3 if q else 4, flags="")
+    cs += gens.g_nonchar()
     cs += char_cases(tier, seed)
     return cs
 
@@ -370,6 +388,7 @@ def c09_cases(tier, seed):
     fs = list(range(1, 301, 7)) + [2, 3, 15, 16, 17, 254, 255, 256, 257] if q else list(range(1, 301))
     cs = gens.g_ent_cycles(32, flags="c")
     cs += gens.g_ent_fanout(sorted(set(fs)), list(range(1, 13)), flags="c")
+    cs += gens.g_ent_fanout_attr_leaf([1, 2, 3, 4, 6, 10, 15, 16], [1, 2, 3, 4], flags="c")
     cs += gens.g_ent_chains(14, flags="c")
     cs += gens.g_ent_empty(flags="c")
     cs += gens.g_ent_toplevel(1000 if q else 100000, flags="c")
@@ -383,13 +402,16 @@ def api_docs(tier, seed, flags):
     cs += gens.g_cst(seed, 250 if q else 2500, flags=flags, renderings=1, hoist=True, size=10)
     cs += gens.g_fixtures(flags=flags)
     cs += gens.g_long(flags=flags, counts=[2, 3, 16, 17, 33])
+    if "l" in flags:
+        cs += gens.g_same_uri(flags)
     return cs
 
 
 def c10_cases(tier, seed):
     cs = api_docs(tier, seed, "ncptadlog")
     cs += [Case("<e>é</e>", "ncptadlog", True, meta={"gen": "nonascii"}),
-           Case("<e>\n中\n😀é\n</e>", "ncptadlog", True, meta={"gen": "nonascii"})]
+           Case("<e>\n中\n😀é\n</e>", "ncptadlog", True, meta={"gen": "nonascii"}),
+           Case("<e>р–À…😀</e>", "ncptadlog", True, meta={"gen": "continuation-bytes"})]
     return cs
 
 
@@ -462,6 +484,9 @@ def c14_cases(tier, seed):
     cs += gens.g_fixtures(flags="t")
     cs += gens.g_ent_cycles(6, flags="t") + gens.g_ent_random(seed, 400 if q else 4000, flags="t")
     cs += [Case("<e>é</e>", "t", True), Case("a\r\nb\n\n中文\n", "t", True), Case("<r>\n  <a>é\n</b>", "t", True)]
+    cs += [Case(c.data, "t", True, meta=c.meta) for c in gens.g_nonchar()]
+    # text_pos_at inside characters whose continuation bytes are 0x80 / 0xBF
+    cs += [Case("<e>р–À…😀\u07ff\uffff</e>".replace("\uffff", ""), "t", True, meta={"gen": "continuation-bytes"})]
     # whitespace insertion ahead of the offending construct: groups (base, shifted, kind, k)
     groups = []
     rnd = random.Random(seed)
@@ -700,7 +725,8 @@ def c10_extra(tier, seed, harness_rel, harness_dbg):
     d = 20000 if q else 100000
     fams = [("deep-%d-api" % d, b"<a>" * d + b"</a>" * d, "nat"),
             ("wide-%d-api" % d, b"<r>" + b"<a/>" * d + b"</r>", "nat"),
-            ("deep-10000-debug", b"<a>" * (3000 if q else 10000) + b"</a>" * (3000 if q else 10000), "g"),
+            ("deep-%d-debug" % (9000 if q else 12000), b"<a>" * (9000 if q else 12000) + b"</a>" * (9000 if q else 12000), "g"),
+            ("deep-attrs-8200-debug", b"<a b='1'>" * 8200 + b"</a>" * 8200, "g"),
             ("nonascii-lines-api", ("<r>" + "é中\n" * (2000 if q else 20000) + "</r>").encode(), "t" if q else "t")]
     for name, data, flags in fams:
         if flags == "t" and len(data) > 40000:
@@ -801,7 +827,7 @@ defprop("C01", "other", {"R"}, c01_cases, oracle=oracles.o_total, extra=c01_extr
         nontrivial=lambda c, l: len(c.data) >= 3,
         rule="exhaustive meta-alphabet strings (+ embedded in content / attribute), token strings, every prefix of the fixtures, seeded mutations, entity graphs, random documents, option sweep; non-trivial = input of >= 3 bytes; distinct by (input, options)",
         technique="Coq model + theorems (no-panic/termination lemmas) + model/impl correspondence + isolated scale runs")
-defprop("C02", "other", {"R", "N"}, lambda t, s: tree_cases(t, s, "n"), oracle=oracles.o_wf_tree,
+defprop("C02", "proof", {"R", "N"}, lambda t, s: tree_cases(t, s, "n"), oracle=oracles.o_wf_tree,
         nontrivial=lambda c, l: rxlib.result_class(l) == "ok" and int(l[0].split(" ")[2]) >= 4,
         rule="exhaustive token strings x 6 entity tables (plain and wrapped in a root), random documents with hoisting, fixtures, entity graphs, mutations; non-trivial = accepted with >= 4 nodes; distinct by link table",
         technique="Coq proof of the arena/tree invariant + correspondence")
@@ -845,10 +871,10 @@ defprop("C14", "other", {"R", "E", "TP"}, c14_cases, oracle=oracles.o_positions,
         nontrivial=lambda c, l: rxlib.result_class(l) == "err",
         rule="errors produced by meta strings, mutations, token strings, the ill-forming catalogue, entity graphs; text_pos_at for every offset 0..len+2; whitespace-insertion pairs; non-trivial = rejected",
         technique="Coq proof of the position function against its specification + correspondence")
-defprop("C15", "other", {"R", "N", "E"}, c15_cases, oracle=None, relation=c15_relation,
+defprop("C15", "proof", {"R", "N", "E"}, c15_cases, oracle=None, relation=c15_relation,
         rule="inputs x limits {0..10,12,16, 3 random, guesses around N, u32::MAX} x allow_dtd",
         technique="Coq proof of the limit simulation + correspondence")
-defprop("C16", "other", {"R", "E", "N", "Q", "A", "S", "K", "C", "X", "P", "PA"}, c16_cases, oracle=None, relation=c16_relation,
+defprop("C16", "proof", {"R", "E", "N", "Q", "A", "S", "K", "C", "X", "P", "PA"}, c16_cases, oracle=None, relation=c16_relation,
         rule="inputs x {allow_dtd true, false, Document::parse}; DOCTYPE forms at every prolog position and DOCTYPE-like text inside comments/CDATA/PIs/values",
         technique="Coq proof of the option relation + correspondence")
 defprop("C17", "proof", {"R", "OG", "OC", "OS", "OH"}, lambda t, s: api_docs(t, s, "no"), oracle=oracles.o_identity,
